@@ -119,6 +119,22 @@ pub fn replay_file(path: &str) -> i32 {
             let ty = j.get("ty").and_then(|x| x.as_str()).unwrap_or("");
             crate::props::c06::run_entry(entry, text, ty)
         }
+        "u256_decimal" => {
+            use std::str::FromStr;
+            let hex = j.get("hex").and_then(|x| x.as_str()).unwrap_or("");
+            let Some(b) = crate::big::Big::parse_radix(hex, 16) else { return 2 };
+            let mut arr = [0u8; 32];
+            arr.copy_from_slice(&b.to_bytes(32));
+            let u = simfony::num::U256::from_byte_array(arr);
+            let want = b.to_decimal();
+            let printed = drive::guard(|| u.to_string());
+            let parsed = drive::guard(|| simfony::num::U256::from_str(&want));
+            if printed.as_deref() == Ok(want.as_str()) && matches!(parsed, Ok(Ok(v)) if v == u) {
+                "print and parse ok".to_string()
+            } else {
+                format!("MISMATCH printed {printed:?}, numeral {want}")
+            }
+        }
         "error_message" => {
             let text = j.get("program").and_then(|x| x.as_str()).unwrap_or("");
             match crate::props::c20::verdict(text) {
